@@ -13,6 +13,11 @@ def targetOf (group resource : String) (namespaced : Bool) (ns name : String) : 
 def Cfg.parentTarget (c : Cfg) (parent : J) : Target :=
   targetOf c.parentGroup c.parentResource c.parentNamespaced (getNamespace parent) (getName parent)
 
+/-- `time.Duration(seconds * float64(time.Second))` read back in milliseconds: a product beyond the int64 range
+    converts to the minimum int64 (amd64), i.e. a negative delay -/
+def clampMs (ms : Int) : Int :=
+  if ms * 1000000 ≥ 9223372036854775808 then -9223372036854 else ms
+
 def retrySteps : Nat := 4   -- retry.DefaultBackoff.Steps
 
 /-- `AtomicUpdate` / `AtomicStatusUpdate` / `UpdateWithRetries`: GET, check UID, edit, PUT; retried on
@@ -279,6 +284,8 @@ def ssaOne (fieldManager : String) (info : KindInfo) (kind : String) (parentRef 
     match e with
     | some e => pure (some e, memo)
     | none =>
+      -- the dynamic client refuses a patch without a name before sending anything
+      if getName des == "" then pure (some "name is required", memo) else
       let r ← api .apply t body (applyOpts fieldManager)
       match r with
       | .err e => pure (some e, memo)
